@@ -433,7 +433,15 @@ mod worker {
             // The number of such tasks is bounded by the QUIC concurrent streams limit.
             tokio::spawn(
                 async move {
-                    let stream_h3 = match stream_quic.upgrade().await {
+                    // A peer can leave the stream header incomplete for as long as it
+                    // likes: give up (releasing the stream, and with it the connection)
+                    // as soon as the worker is gone.
+                    let upgraded = tokio::select! {
+                        upgraded = stream_quic.upgrade() => upgraded,
+                        () = ready_uni_h3_streams.closed() => return,
+                    };
+
+                    let stream_h3 = match upgraded {
                         Ok(stream_h3) => stream_h3,
                         Err(ProtoReadError::H3(ErrorCode::StreamCreation)) => {
                             // A stream of unknown type is not a connection error:
@@ -492,7 +500,14 @@ mod worker {
                     let mut stream_h3 = stream_quic.upgrade();
 
                     let frame = loop {
-                        match stream_h3.read_frame().await {
+                        // See `accept_uni`: do not outlive the worker while the peer keeps
+                        // the first frame incomplete.
+                        let read = tokio::select! {
+                            read = stream_h3.read_frame() => read,
+                            () = ready_bi_h3_streams.closed() => return,
+                        };
+
+                        match read {
                             Ok(frame) => {
                                 debug!("Frame kind: {:?}", frame.kind());
                                 if !matches!(frame.kind(), FrameKind::Exercise(_)) {
